@@ -81,7 +81,7 @@ fn classify_hint(den: &B, honest_flag: bool, honest_y: &B, flag: bool, y: &B, yc
 pub fn run(ctx: &Ctx, rec: &mut Rec) {
     let gs = gadgets();
     let mut zrng = rng_for(ctx.seed, P, 999, 0);
-    let zoo = elements_for_gadgets(ctx, &mut zrng, ctx.scale(4, 40));
+    let zoo = elements_for_gadgets(ctx, &mut zrng, ctx.scale(16, 60));
     for g in gs.iter().filter(|g| g.uses_isqrt) {
         rec.declare_form(g.name);
     }
@@ -94,7 +94,7 @@ pub fn run(ctx: &Ctx, rec: &mut Rec) {
         if !g.uses_isqrt {
             continue;
         }
-        let budget = ctx.scale(60, 300);
+        let budget = ctx.scale(200, 900);
         for (inp, cl) in inputs_for(ctx, g, &zoo, &mut zrng, budget) {
             work.push((gi, inp, cl));
         }
@@ -126,7 +126,7 @@ pub fn run(ctx: &Ctx, rec: &mut Rec) {
                 }
             };
             rec.count("isqrt_call_sites_seen", seen.len() as u64);
-            let randoms: Vec<B> = (0..ctx.scale(1, 3)).map(|_| rand_below(&mut rng, &ctx.c.f.p)).collect();
+            let randoms: Vec<B> = (0..ctx.scale(2, 4)).map(|_| rand_below(&mut rng, &ctx.c.f.p)).collect();
             // single substitutions at every call index
             let mut plans: Vec<(Vec<Subst>, String, String)> = Vec::new();
             for (idx, (den, hflag, hy)) in seen.iter().enumerate() {
@@ -217,7 +217,7 @@ pub fn run(ctx: &Ctx, rec: &mut Rec) {
         bad.push((from_pt(c, &c.t2()), "coords:(0,-1)"));
         bad.push((from_raw(&t4.x, &t4.y, &b(1), &b(0)), "coords:4-torsion"));
         bad.push((from_raw(&f.neg(&t4.x), &t4.y, &b(1), &b(0)), "coords:4-torsion"));
-        for e in zoo.iter().take(ctx.scale(30, 120)) {
+        for e in zoo.iter().take(ctx.scale(100, 300)) {
             let shifted = c.add(&e.m, &t4);
             bad.push((from_pt(c, &shifted), "coords:outside-2E"));
             bad.push((from_pt(c, &c.torque(&e.m)), "coords:other-rep"));
